@@ -1451,15 +1451,18 @@ theorem process_ok {proj : Project} {rank : List Nat} (wf : WFacts proj rank) (r
         | unprocessed => exact absurd hp hu
       · exact hord t ht'
 
-/-- **the run of a `WFr` project** (M2): it raises nothing, the relocated invariant holds at the end, no module
-is left in `processing`, every module of the order is processed -/
 /-- the invariant does not speak about the `pending` order -/
 theorem PdInv.setPending {proj : Project} {s : St} (h : PdInv proj s) (l : List Nat) : PdInv proj { s with pending := l } :=
   { reg := h.reg, cbase := h.cbase, lens := h.lens, mods := h.mods, site := h.site, alias := h.alias, cont := h.cont,
     alls := h.alls, started := h.started,
-    complete := fun m md hm hp => completeStmts_reg (s := s) rfl _ (h.complete m md hm hp),
-    movedPs := h.movedPs, movedIn := h.movedIn }
+    complete := fun m md hm hp => by
+      have he : ({ s with pending := l } : St).reg = s.reg := rfl
+      exact completeStmts_reg he _ (h.complete m md hm hp)
+    movedPs := h.movedPs
+    movedIn := h.movedIn }
 
+/-- **the run of a `WFr` project** (M2): it raises nothing, the relocated invariant holds at the end, no module
+is left in `processing`, every module of the order is processed -/
 theorem run_ok {proj : Project} {rank : List Nat} (wf : WFacts proj rank) (rx : RxFacts proj)
     (hro : ReparentOk) (hsl : SubLookup proj rank) (order : List Nat) :
     (run proj order).bad = false ∧ PdInv proj (run proj order) ∧ NoProcessing (run proj order) ∧
